@@ -263,6 +263,22 @@ func (g *gen) specExpr(e *env, x ast.Expr, want string, c *Clause) T {
 						}
 					}
 				}
+				if sel, ok := x.(*ast.SelectorExpr); ok {
+					if id, ok := sel.X.(*ast.Ident); ok {
+						if p := g.w.importedPkg(g.pkgTypes(), id.Name); p != nil {
+							if obj := p.Scope().Lookup(sel.Sel.Name); obj != nil {
+								if b, ok := obj.Type().Underlying().(*types.Basic); ok && b.Info()&types.IsUntyped == 0 {
+									s, sg := g.sortOf(obj.Type())
+									if t, ok := g.litOfSort(cv, s); ok {
+										t.Signed = sg
+										t.GoT = obj.Type()
+										return t
+									}
+								}
+							}
+						}
+					}
+				}
 				if t, ok := g.litOfSort(cv, g.idx); ok {
 					t.Signed = true
 					return t
